@@ -5,7 +5,17 @@ Leg A: theorems of coq/theories/Properties/C19.v over the interpreter Levels/Mod
 Leg B: translator (every run) + exhaustive correspondence: every operator on every pair, every
        conversion, set_max->current, the LevelFilter layer, and a string corpus, implementation vs model.
 Leg C: oracle = the specification order and the documented text language, evaluated here in Python
-       directly on the implementation's answers."""
+       directly on the implementation's answers.
+
+The text clause has three parsers of level names in the tree: Level::from_str, LevelFilter::from_str (metadata.rs)
+and tracing-attributes' `impl Parse for Level` (`#[instrument(level = ..)]`, `err(level = ..)`, `ret(level = ..)`).
+The third one runs at macro-expansion time, so its correspondence compiles generated fixtures (harness/lvlattr):
+stage 1 compiles every case and reads rustc's JSON diagnostics per line (error = rejected), stage 2 compiles and runs
+the accepted ones under a recording collector (which level each one denotes).
+
+The published maximum: set_max -> current for one collector with each hint, and the fold over several live dispatchers
+(callsite.rs rebuild_interest).  These are sequential statements; the translator checks that the source gives set_max a
+single serialised writer.  Overlapping rebuilds are C12's / C04's forced schedules."""
 import itertools
 import json
 import os
@@ -56,8 +66,190 @@ def spec_parse(s, filt):
     return -1
 
 
+def spec_attr_str(s):
+    """`level = "<s>"`: one of the five level names in any ASCII letter case; nothing else (no digit strings, no `off`)."""
+    low = s.lower() if s.isascii() else None
+    return NAMES[low] if (low in NAMES and low != "off") else -1
+
+
+def load_corpus():
+    try:
+        return json.load(open(os.path.join(vlib.VERIF, "corpus", "C19", "cases.json"), encoding="utf-8"))
+    except (OSError, ValueError):
+        return {"strings": [], "attr_tokens": []}
+
+
+def rust_str_token(s):
+    out = []
+    for ch in s:
+        o = ord(ch)
+        if 0x20 <= o <= 0x7e and ch not in '"\\':
+            out.append(ch)
+        else:
+            out.append("\\u{%x}" % o)
+    return '"' + "".join(out) + '"'
+
+
+ATTR_FORMS = {
+    "span": ("#[tracing::instrument(level = %s)] fn %s() {}", "%s();"),
+    "ret": ("#[tracing::instrument(ret(level = %s))] fn %s() -> u8 { 0 }", "let _ = %s();"),
+    "err": ("#[tracing::instrument(err(level = %s))] fn %s() -> Result<u8, &'static str> { Err(\"e\") }", "let _ = %s();"),
+}
+
+
+def attr_cases(ctx, strs):
+    """Cases for the attribute's level parser: dicts {form, tok, sem} (sem = ["str", s] | ["int", n] | ["path", lvl] | ["bad"])."""
+    cor = load_corpus()
+    cases, seen = [], set()
+
+    def add(form, tok, sem):
+        if (form, tok) not in seen:
+            seen.add((form, tok))
+            cases.append({"form": form, "tok": tok, "sem": sem})
+
+    for s in cor.get("strings", []):
+        add("span", rust_str_token(s), ["str", s])
+    for t in cor.get("attr_tokens", []):
+        add("span", t["tok"], t["sem"])
+    fixed = [s for s in strs if spec_parse(s, True) >= 0 or not s.isascii()]       # every accepted spelling + every non-ASCII string
+    rng = ctx.rng
+    rest = [s for s in strs if not (spec_parse(s, True) >= 0 or not s.isascii())]
+    rng.shuffle(rest)
+    for s in fixed + rest[:(300 if not ctx.thorough() else 3000)]:
+        add("span", rust_str_token(s), ["str", s])
+    # non-ASCII code points around the level names: case-mapping look-alikes substituted into each name
+    subst = {"i": "ıİｉΙіӏ", "I": "ıİＩΙІ", "s": "ſʂѕ", "S": "ſЅ", "k": "KΚ", "e": "еｅ", "o": "οоｏ", "a": "аａ", "r": "ʀｒ",
+             "n": "ｎո", "f": "ｆ", "w": "ｗԝ", "d": "ｄԁ", "b": "ｂ", "u": "ｕ", "g": "ｇɡ", "t": "ｔ", "c": "сｃ", "E": "ＥЕ", "O": "ОΟ"}
+    for name in ("trace", "debug", "info", "warn", "error"):
+        for variant in (name, name.upper(), name.capitalize()):
+            for i, ch in enumerate(variant):
+                for rep_ch in subst.get(ch, ""):
+                    add("span", rust_str_token(variant[:i] + rep_ch + variant[i + 1:]), ["str", variant[:i] + rep_ch + variant[i + 1:]])
+    for n in range(0, 12):
+        add("span", str(n), ["int", n])
+    fmts = [lambda n: "%d" % n, lambda n: "0x%x" % n, lambda n: "0o%o" % n, lambda n: "0b" + bin(n)[2:], lambda n: "%du64" % n,
+            lambda n: "0%d" % n, lambda n: "{:_}".format(n)]
+    for _ in range(20 if not ctx.thorough() else 200):
+        n = rng.choice([rng.randint(0, 9), rng.randint(0, 300), rng.randint(2 ** 63, 2 ** 65), 2 ** 64 + rng.randint(0, 6), 2 ** 32 + rng.randint(0, 6)])
+        add("span", rng.choice(fmts)(n), ["int", n])
+    for form in ("ret", "err"):
+        for s in ("trace", "DEBUG", "iNfO", "Warn", "erroR", "ınfo", "3", "", "off", "warning", "INFO "):
+            add(form, rust_str_token(s), ["str", s])
+        for n in (0, 1, 3, 5, 6):
+            add(form, str(n), ["int", n])
+        add(form, "Level::WARN", ["path", 2])
+    return cases
+
+
+def attr_cargo(ctx, binname, as_json):
+    manifest = vlib.harness_pkg(ctx, "lvlattr")
+    cmd = ["cargo", "build", "--offline", "--manifest-path", manifest, "--bin", binname] + (["--message-format=json"] if as_json else [])
+    env = {"CARGO_NET_OFFLINE": "true", "CARGO_TARGET_DIR": ctx.target_dir, "RUSTFLAGS": "--cfg %s -A warnings" % vlib.GUARD_CFG}
+    import time
+    t = time.time()
+    rc, out = vlib.sh(cmd, 1500, env=env)
+    ctx.log("cargo build lvlattr %s rc=%d (%.1fs)" % (binname, rc, time.time() - t))
+    return rc, out
+
+
+def attr_file(cases, idxs, with_runner):
+    lines = ["// GENERATED by driver/props/c19.py; one case per line (line number = case)."]
+    where = {}
+    for i in idxs:
+        c = cases[i]
+        lines.append(ATTR_FORMS[c["form"]][0] % (c["tok"], "c%d" % i))
+        where[len(lines)] = i
+    if with_runner:
+        lines.append("fn run_all() { " + " ".join(ATTR_FORMS[cases[i]["form"]][1] % ("c%d" % i) for i in idxs) + " }")
+    return "\n".join(lines) + "\n", where
+
+
+def attr_impl(ctx, cases):
+    """-> ({case index: -1 | level 1..5}, {case index: rejection message}, problems [str])."""
+    problems = []
+    with vlib.flock("lvlattr-" + ctx.repo_key):
+        pkgdir = os.path.dirname(vlib.harness_pkg(ctx, "lvlattr"))
+        text, where = attr_file(cases, range(len(cases)), False)
+        gen_if_changed(os.path.join(pkgdir, "cases_probe.rs"), text)
+        rc, out = attr_cargo(ctx, "h_lvlattr_probe", True)
+        rejected = {}
+        other = []
+        for l in out.splitlines():
+            if not l.startswith('{"reason"'):
+                continue
+            try:
+                d = json.loads(l)
+            except ValueError:
+                continue
+            if d.get("reason") != "compiler-message":
+                continue
+            m = d["message"]
+            if not m.get("level", "").startswith("error") or m["message"].startswith("aborting due to"):
+                continue
+            lns = set()
+
+            def walk(sp):
+                if sp.get("file_name", "").endswith("cases_probe.rs"):
+                    lns.add(sp["line_start"])
+                ex = sp.get("expansion")
+                if ex and ex.get("span"):
+                    walk(ex["span"])
+            for sp in m.get("spans", []):
+                walk(sp)
+            hit = [where[ln] for ln in lns if ln in where]
+            if hit:
+                for i in hit:
+                    rejected.setdefault(i, m["message"])
+            else:
+                other.append(m["message"])
+        if other:
+            problems.append("stage 1: compiler errors not attributable to a case: %s" % "; ".join(other[:3]))
+        if rc != 0 and not rejected and not other:
+            problems.append("stage 1: cargo failed without diagnostics: %s" % vlib.last_error(out))
+        if rc == 0 and rejected:
+            problems.append("stage 1: errors reported but the build succeeded")
+        accepted = [i for i in range(len(cases)) if i not in rejected]
+        text2, _ = attr_file(cases, accepted, True)
+        gen_if_changed(os.path.join(pkgdir, "cases_run.rs"), text2)
+        # leave a probe file behind that compiles (./setup builds every harness binary)
+        gen_if_changed(os.path.join(pkgdir, "cases_probe.rs"), attr_file(cases, accepted, False)[0])
+        rc2, out2 = attr_cargo(ctx, "h_lvlattr_run", False)
+        res = {i: -1 for i in rejected}
+        if rc2 != 0:
+            problems.append("stage 2: the cases stage 1 accepted do not build: %s" % vlib.last_error(out2))
+            return res, rejected, problems
+        rc3, out3 = run_bin(os.path.join(ctx.target_dir, "debug", "h_lvlattr_run"), timeout=300)
+    spans, events, done = {}, {}, False
+    for l in out3.splitlines():
+        if not l.startswith("{"):
+            continue
+        r = json.loads(l)
+        if r["k"] == "span":
+            spans.setdefault(r["name"], []).append(r["level"])
+        elif r["k"] == "event":
+            events.setdefault(r["in"], []).append(r["level"])
+        elif r["k"] == "done":
+            done = True
+    if rc3 != 0 or not done:
+        problems.append("stage 2: run rc=%d %s" % (rc3, vlib.last_error(out3)))
+    for i in accepted:
+        nm = "c%d" % i
+        form = cases[i]["form"]
+        if form == "span":
+            got, extra_ok = spans.get(nm, []), not events.get(nm)
+        else:
+            got, extra_ok = events.get(nm, []), spans.get(nm) == [3]      # the span itself stays at the default INFO
+        if len(got) == 1 and extra_ok:
+            res[i] = got[0]
+        else:
+            res[i] = -2
+            problems.append("stage 2: case %d (%s level = %s): spans %s events %s" % (i, form, cases[i]["tok"], spans.get(nm), events.get(nm)))
+    return res, rejected, problems
+
+
 def corpus(ctx):
     strs = set()
+    strs.update(load_corpus().get("strings", []))
     for name in NAMES:
         for bits in itertools.product([0, 1], repeat=len(name)):
             strs.add("".join(c.upper() if b else c for c, b in zip(name, bits)))
@@ -99,14 +291,21 @@ def run(ctx):
     rep.rule = ("exhaustive: 10 operators x 11 x 11 Level/LevelFilter values (mixed-type cmp/min/max do not exist), all conversions, "
                 "set_max->current for 6 filters, LevelFilter layer x 5 levels; strings: every letter-case pattern of the 6 names, "
                 "digit strings with +/-/0 prefixes, overflow-length numerals, Unicode look-alikes, seeded random strings and "
-                "mutations of accepted strings. non-trivial = operator triple with a != b, or a string within edit distance 1 of "
-                "an accepted spelling / a numeral with sign or leading zeros; distinct = distinct (op,a,b) or distinct string")
+                "mutations of accepted strings; the same strings (all accepted spellings, all non-ASCII ones, a seeded sample of the rest), "
+                "case-mapping look-alikes substituted into each name, integer literals (all bases, suffixes, > u64), paths and other tokens as "
+                "`#[instrument(level = ..)]` / `ret(level = ..)` / `err(level = ..)` fixtures; published maximum: every list of <= 3 live "
+                "dispatchers over 7 hints, plus a dropped one. non-trivial = operator triple with a != b, or a string within edit distance 1 of "
+                "an accepted spelling / a numeral with sign or leading zeros, an attribute token that is not a plain rejected string, a hint "
+                "list with two different hints; distinct = distinct (op,a,b) / string / (form,token) / hint list")
     rep.trusted_base = [
         "Coq 8.16.1 kernel + vm_compute (no native_compute)", "translators/levels.py + rsparse.py (shape recognition of metadata.rs; fails closed via gen_unrecognised = [])",
-        "harness h_levels.rs (calls the real operators; identifies values by derived Hash only)", "std: usize::from_str, eq_ignore_ascii_case, Ord::min/max defaults (modelled)",
+        "harness h_levels.rs (calls the real operators; identifies values by derived Hash only)",
+        "harness lvlattr (generated fixtures; rustc's JSON diagnostics attribute a rejection to the fixture line it points at; syn's LitStr::value / LitInt::base10_parse give the literal's value)", "std: usize::from_str, eq_ignore_ascii_case, Ord::min/max defaults (modelled)",
         "Python oracle (spec order / documented language)"]
     rep.assumptions = ["strings presented to FromStr are valid UTF-8 (Rust's &str); the theorem covers all byte lists",
-                       "usize is 64-bit", "Ord::max/min are std's defaults built on the hand-written `lt`"]
+                       "usize is 64-bit", "Ord::max/min are std's defaults built on the hand-written `lt`",
+                       "the published-maximum theorems are sequential: one rebuild at a time (the translator checks that the source serialises set_max's only caller under the registry's write lock; overlapping rebuilds are C12_max_level_after / C04's schedules)",
+                       "attribute level parser: a literal is modelled by its value (string bytes / integer), the tokenizer is rustc's and syn's"]
     # ---- leg B1: translator
     text, unrec = levels_tr.main(ctx.repo, None)
     gen_if_changed(os.path.join(vlib.COQ, "gen", "Gen_levels.v"), text)
@@ -129,6 +328,11 @@ def run(ctx):
             return rep
         impl_runs.append(("release" if rel else "debug", [json.loads(l) for l in out.splitlines() if l.startswith("{")]))
 
+    acases = attr_cases(ctx, strs)
+    aimpl, arej, aproblems = attr_impl(ctx, acases)
+    rep.tie("attr-fixtures", not aproblems, "; ".join(aproblems[:3]), aproblems[:1] or None)
+    pub_lists = sorted({tuple(r["hs"]) for _, recs in impl_runs for r in recs if r["k"] == "published"})
+
     # ---- model evaluation (may be impossible when the proof leg / generated file is broken)
     model = None
     try:
@@ -150,8 +354,26 @@ def run(ctx):
         for i in range(0, len(strs), chunk):
             lits = "; ".join(vlib.coq_bytes(s.encode("utf-8")) for s in strs[i:i + chunk])
             terms.append(("parse%d" % i, "map (fun s => (%s (parse_level s), %s (parse_filter s))) [%s]" % (enc_l, enc_ol, lits)))
+        astrs = sorted({c["sem"][1] for c in acases if c["sem"][0] == "str"})
+        aints = sorted({c["sem"][1] for c in acases if c["sem"][0] == "int"})
+        for i in range(0, len(astrs), chunk):
+            lits = "; ".join(vlib.coq_bytes(x.encode("utf-8")) for x in astrs[i:i + chunk])
+            terms.append(("attrs%d" % i, "map (fun s => %s (attr_parse_str s)) [%s]" % (enc_l, lits)))
+        terms.append(("attri", "(map (fun n => %s (attr_parse_int n)) [%s], gen_attr_path_passthrough, map (fun n => %s (parse_level [48 + n])) [1; 2; 3; 4; 5])"
+                      % (enc_l, "; ".join(str(n) for n in aints), enc_l)))
+        hint = lambda h: "None" if h == 9 else ("(Some None)" if h == 0 else "(Some (Some %s))" % LV[h - 1])
+        terms.append(("pub", "map (fun hs => %s (published hs)) [%s]" % (enc_ol, "; ".join("[" + "; ".join(hint(h) for h in hs) + "]" for hs in pub_lists))))
         res = coq_eval(ctx, "From TV Require Import Levels.Model.\nLocal Open Scope N_scope.\nLocal Open Scope string_scope.", terms)
-        model = {"ops": {}, "parse": {}}
+        model = {"ops": {}, "parse": {}, "attr_str": {}, "attr_int": {}, "pub": {}}
+        for i in range(0, len(astrs), chunk):
+            for x, r in zip(astrs[i:i + chunk], res["attrs%d" % i]):
+                model["attr_str"][x] = r if r != 99 else -1
+        for n, r in zip(aints, res["attri"][0]):
+            model["attr_int"][n] = r if r != 99 else -1
+        model["attr_path"] = res["attri"][1]
+        model["from_str_digits"] = res["attri"][2]
+        for hs, r in zip(pub_lists, res["pub"]):
+            model["pub"][hs] = r if r != 99 else -1
         for (op, a, b, _), r in zip(triples, res["ops"]):
             model["ops"][(op, a, b)] = r
         for i in range(0, len(strs), chunk):
@@ -231,6 +453,26 @@ def run(ctx):
                 elif k == "layer_hint":
                     if r["r"] != r["f"]:
                         bad = "LevelFilter %s as layer: hint %s" % (r["f"], r["r"])
+                elif k == "overlap":
+                    rep.count("overlap:" + ("overlapped" if r["overlapped"] else "serialised"))
+                    rep.nontrivial.add(("overlap", r["old"], r["new"]))
+                    if not r["paused"] or r["before"] != r["old"]:
+                        bad = "overlap probe did not reach its starting point: %s" % r
+                    elif r["r"] != r["new"]:
+                        bad = ("a second rebuild_interest_cache() %s one that was in progress (it had read the collector's hint %s); the hint changed to %s, "
+                               "the second rebuild published %s, then the first one finished: with no rebuild in progress and the only collector's hint = %s, "
+                               "LevelFilter::current() = %s (0..5 = OFF..TRACE)"
+                               % ("overlapped" if r["overlapped"] else "ran after", r["old"], r["new"], r["mid"], r["new"], r["r"]))
+                elif k == "published":
+                    hs = tuple(r["hs"])
+                    want = max([5 if h == 9 else h for h in hs] or [0])
+                    if len(set(hs)) > 1:
+                        rep.nontrivial.add(("published", hs, r.get("dead")))
+                    if r["r"] != want:
+                        bad = ("with live collectors whose max_level_hints are %s%s, LevelFilter::current() = %s but the greatest hint is %s "
+                               "(0..5 = OFF..TRACE, 9 = no hint)" % (list(hs), " (after one with hint %s was dropped)" % r["dead"] if "dead" in r else "", r["r"], want))
+                    if model is not None and model["pub"].get(hs) != r["r"]:
+                        disagree.append({"case": ["published", list(hs), r.get("dead")], "impl": r["r"], "model": model["pub"].get(hs)})
                 if bad:
                     rep.violation(bad + " [%s build]" % prof, dict(r, profile=prof))
         # completeness of the enumeration on the implementation side
@@ -243,7 +485,7 @@ def run(ctx):
             lv_rows, f_rows, layer_rows = model["misc"]
             by = {}
             for r in recs:
-                if r["k"] not in ("op", "parse"):
+                if r["k"] not in ("op", "parse", "published", "overlap"):
                     by.setdefault(r["k"], {})[(r.get("a"), r.get("f"), r.get("l"))] = r
             for i, row in enumerate(lv_rows, 1):
                 disp, asstr, aslog, astrace = row
@@ -270,21 +512,107 @@ def run(ctx):
                         disagree.append({"case": ["layer", fi, li], "impl": [r["enabled"], r["interest"]], "model": [en, rc]})
             rep.tie("correspondence:" + prof, not disagree, "%d disagreements" % len(disagree), disagree[:1] or None)
             rep.traces_validated += len(recs)
+    # ---- the attribute's level parser: oracle (documented language) + correspondence with the model
+    adis = []
+    for i, c in enumerate(acases):
+        got = aimpl.get(i, -2)
+        if got == -2:
+            continue                       # already reported as an attr-fixtures problem
+        kind = c["sem"][0]
+        rep.evaluations += 1
+        rep.count("attr:%s:%s:%s" % (c["form"], kind, "accepted" if got >= 0 else "rejected"))
+        shown = "#[instrument(%s)]" % {"span": "level = %s", "ret": "ret(level = %s)", "err": "err(level = %s)"}[c["form"]] % c["tok"]
+        case = {"kind": "attr", "form": c["form"], "tok": c["tok"], "sem": c["sem"], "impl": got}
+        lv_name = lambda v: "rejected" if v < 0 else "accepted as " + LV[v - 1].upper()
+        if kind == "str":
+            x = c["sem"][1]
+            want = spec_attr_str(x)
+            if want >= 0 or not x.isascii() or any(spec_parse(x[:j] + x[j + 1:], True) >= 0 for j in range(len(x))):
+                rep.nontrivial.add(("attr", c["form"], c["tok"]))
+            if got != want:
+                rep.violation("%s (the string %r) is %s; only the five level names in any ASCII letter case may be accepted, so it must be %s%s"
+                              % (shown, x, lv_name(got), lv_name(want),
+                                 "" if got < 0 else " (Level::from_str(%r) is %s)" % (x, lv_name(spec_parse(x, False)))), dict(case, spec=want, input=x))
+            elif got < 0 and "unknown verbosity level" not in arej.get(i, ""):
+                rep.violation("%s is rejected, but not as an unknown verbosity level: %s" % (shown, arej.get(i, "")[:200]), dict(case, message=arej.get(i)))
+            if model is not None and model["attr_str"].get(x) != got:
+                adis.append({"case": [c["form"], c["tok"]], "impl": got, "model": model["attr_str"].get(x)})
+        elif kind == "int":
+            n = c["sem"][1]
+            rep.nontrivial.add(("attr", c["form"], c["tok"]))
+            if (got >= 0) != (1 <= n <= 5):
+                rep.violation("%s (the number %d) is %s; exactly the numbers 1-5 are documented" % (shown, n, lv_name(got)), dict(case, spec_accepts=(1 <= n <= 5)))
+            elif got < 0 and "unknown verbosity level" not in arej.get(i, ""):
+                rep.violation("%s is rejected, but not as an unknown verbosity level: %s" % (shown, arej.get(i, "")[:200]), dict(case, message=arej.get(i)))
+            if model is not None and model["attr_int"].get(n) != got:
+                adis.append({"case": [c["form"], c["tok"]], "impl": got, "model": model["attr_int"].get(n)})
+        elif kind == "path":
+            rep.nontrivial.add(("attr", c["form"], c["tok"]))
+            if got != c["sem"][1]:
+                rep.violation("%s is %s, the path names %s" % (shown, lv_name(got), LV[c["sem"][1] - 1].upper()), dict(case, spec=c["sem"][1]))
+            if model is not None and model["attr_path"] is not True:
+                adis.append({"case": [c["form"], c["tok"]], "impl": got, "model": "paths are not passed through"})
+        else:
+            rep.nontrivial.add(("attr", c["form"], c["tok"]))
+            if got >= 0:
+                rep.violation("%s is %s; it is neither a string, nor a number, nor a path" % (shown, lv_name(got)), case)
+    if model is not None:
+        rep.tie("correspondence:attr", not adis, "%d disagreements" % len(adis), adis[:1] or None)
+        rep.traces_validated += len(acases)
+        digs = [model["attr_int"].get(n) for n in (1, 2, 3, 4, 5)]
+        if None not in digs and digs != model["from_str_digits"]:
+            ctx.notes.append("observation O1 (not demanded by the property text, not a violation): `#[instrument(level = n)]` maps 1..5 to %s while "
+                             "Level::from_str maps \"1\"..\"5\" to %s (1..5 = ERROR..TRACE): the same digit denotes different levels at the two entry points"
+                             % (digs, model["from_str_digits"]))
     rep.exhaustive = True
-    rep.samples = [{"op": "lt", "a": "Level::ERROR(1)", "b": "LevelFilter::OFF(10)", "impl": [0, 0]},
+    rep.samples = [{"attr_cases": len(acases), "attr_accepted": sum(1 for v in aimpl.values() if v >= 0)},
+                   {"op": "lt", "a": "Level::ERROR(1)", "b": "LevelFilter::OFF(10)", "impl": [0, 0]},
                    {"parse": "+003", "level": 3, "filter": 3}, {"parse": "wArN", "level": 2, "filter": 2},
                    {"parse": "18446744073709551616", "level": -1, "filter": -1}, {"strings_in_corpus": len(strs)}]
+    return rep
+
+
+def replay_attr(ctx, rep, case):
+    cases = [{"form": case["form"], "tok": case["tok"], "sem": case["sem"]},
+             {"form": "span", "tok": '"iNfO"', "sem": ["str", "iNfO"]}]              # a control that must be accepted
+    aimpl, arej, problems = attr_impl(ctx, cases)
+    rep.tie("attr-fixtures", not problems, "; ".join(problems[:3]))
+    got = aimpl.get(0, -2)
+    rep.evaluations += 2
+    rep.samples.append({"replayed": cases[0], "impl": got, "control": aimpl.get(1)})
+    rep.nontrivial.add(("attr", case["form"], case["tok"]))
+    kind = case["sem"][0]
+    want_ok = None
+    if kind == "str":
+        want = spec_attr_str(case["sem"][1])
+        want_ok = got == want
+    elif kind == "int":
+        want_ok = (got >= 0) == (1 <= case["sem"][1] <= 5)
+    elif kind == "path":
+        want_ok = got == case["sem"][1]
+    else:
+        want_ok = got < 0
+    if aimpl.get(1) != 3:
+        rep.violation("control `#[instrument(level = \"iNfO\")]` is not accepted as INFO: %s" % aimpl.get(1), cases[1])
+    if not want_ok:
+        rep.violation("#[instrument(.. level = %s ..)] [%s form] gives %s (-1 = rejected, 1..5 = ERROR..TRACE), which the documented language does not allow"
+                      % (case["tok"], case["form"], got), dict(case, impl=got))
     return rep
 
 
 def replay(ctx, payload):
     """Re-run one recorded failing case against the implementation (and the spec oracle)."""
     case = payload.get("case") or {}
-    if payload.get("kind") != "failing-input" or case.get("kind") not in ("op", "parse_level", "parse_filter"):
+    if payload.get("kind") != "failing-input" or case.get("kind") not in ("op", "parse_level", "parse_filter", "attr"):
         return run(ctx)
     rep = Report(ctx)
     rep.rule = "replay of one recorded case"
+    text, unrec = levels_tr.main(ctx.repo, None)
+    gen_if_changed(os.path.join(vlib.COQ, "gen", "Gen_levels.v"), text)
+    rep.tie("translator:Gen_levels", not unrec, "; ".join(unrec[:4]), unrec[:1] or None)
     rep.proof = coq_prove(ctx, "C19", ["theories/Properties/C19.vo"])
+    if case["kind"] == "attr":
+        return replay_attr(ctx, rep, case)
     rel = case.get("profile") == "release"
     ok, paths, log = cargo_build(ctx, "core", ["h_levels"], release=rel)
     if not ok:
